@@ -557,6 +557,9 @@ class Evaluator:
             r = self.repo.resolve_expr(args[0].mod or mod, ast.Attribute(value=args[0].node, attr=args[1].value, ctx=ast.Load()))
             if r is not None:
                 return T("ref", n, mod, ref=r)
+        # getattr(obj, "name") with a constant name and no default is the attribute access obj.name
+        if fn.op == "ref" and fn.ref.qual == "builtins.getattr" and len(args) == 2 and not kw and not t.dstar and args[1].op == "const" and isinstance(args[1].value, str) and args[1].value.isidentifier() and args[0].op != "star":
+            return T("attr", n, mod, obj=args[0], name=args[1].value)
         return t
 
     # ------------------------------------------------------------------ helpers
@@ -689,6 +692,16 @@ class Evaluator:
                     a = a if a is not None else (sc.lookup(name) or unknown(f"unbound:{name}"))
                     b = b if b is not None else (sc.lookup(name) or unknown(f"unbound:{name}"))
                     sc.vars[name] = T("if", st, mod, cond=c, then=a, other=b)
+            elif isinstance(st, ast.For) and self._static_elements(st, sc, mod) is not None:
+                # a loop over a short literal table is its own unrolling (break / continue become branches)
+                elts = self._static_elements(st, sc, mod)
+                seq = []
+                for e_ in reversed(elts):
+                    bind = ast.Assign(targets=[st.target], value=e_)
+                    ast.copy_location(bind, st)
+                    bind._parent = getattr(st, "_parent", None)
+                    seq = [bind] + _unroll_body(list(st.body), seq, [])
+                return self.run(seq + rest, sc, mod)
             elif isinstance(st, (ast.For, ast.While)):
                 names = _assigned_names(st.body)
                 only_mutated = _only_mutated(st.body, names)
@@ -738,6 +751,20 @@ class Evaluator:
             else:
                 self.effects.append(("stmt", unknown("stmt:" + type(st).__name__, st)))
         return None
+
+    def _static_elements(self, st, sc, mod):
+        """element expressions of `for ... in <literal tuple/list>` (written in place or as a same-module constant that
+        is bound once), at most 8 of them, when the loop has no else clause and no nested loop jumps"""
+        if st.orelse or any(isinstance(n, (ast.Yield, ast.YieldFrom)) for b in st.body for n in ast.walk(b)):
+            return None
+        it = st.iter
+        if isinstance(it, ast.Name) and sc.lookup(it.id) is None:
+            bl = mod.top.get(it.id)
+            if bl and len(bl) == 1 and bl[-1][0] == "assign" and not _has_def_named(st, it.id):
+                it = bl[-1][1]
+        if not isinstance(it, (ast.Tuple, ast.List)) or not (1 <= len(it.elts) <= 8) or any(isinstance(e, ast.Starred) for e in it.elts):
+            return None
+        return list(it.elts)
 
     def _local_mutation(self, n, v, sc, mod):
         """`xs.append(e)` / `xs.extend(e)` / `s.add(e)` / `d.update(e)` on a local name rebinds the name to a
@@ -938,6 +965,24 @@ class Evaluator:
                     fn = res
                     continue
                 return None, None, None
+            if fn.op == "sub" and fn.idx.op == "const" and type(fn.idx.value) in (int, str):
+                # component of a tuple / dict of functions returned by a factory: makers(...)[0], makers(...)["first"]
+                ob = fn.obj
+                if ob.op == "call":
+                    res = self.inline(ob)
+                    while res is not None and res.op == "seq":
+                        res = res.value
+                    ob = res if res is not None else ob
+                if ob.op == "dict" and not ob.get("dstar"):
+                    hits = [v for k, v in ob.items if k is not None and k.op == "const" and type(k.value) is type(fn.idx.value) and k.value == fn.idx.value]
+                    if len(hits) == 1 and all(k is not None and k.op == "const" for k, _ in ob.items):
+                        fn = hits[0]
+                        continue
+                    return None, None, None
+                if type(fn.idx.value) is int and ob.op in ("tuple", "list") and not any(e.op == "star" for e in ob.elts) and -len(ob.elts) <= fn.idx.value < len(ob.elts):
+                    fn = ob.elts[fn.idx.value]
+                    continue
+                return None, None, None
             return None, None, None
         return None, None, None
 
@@ -1111,25 +1156,60 @@ def _graft(t, cont):
     return cont
 
 
-def _desugar_continue(stmts):
-    """[if c: ...; continue] + rest  ==  [if c: ... else: rest] inside a loop body."""
+def _has_def_named(st, name):
+    return False
+
+
+def _has_jump(stmts):
+    for st in stmts:
+        if isinstance(st, (ast.Continue, ast.Break)):
+            return True
+        if isinstance(st, ast.If) and (_has_jump(st.body) or _has_jump(st.orelse)):
+            return True
+    return False
+
+
+def _unroll_body(stmts, cont, brk):
+    """one iteration of an unrolled loop: `continue` jumps to `cont` (the next iterations), `break` to `brk`"""
     out = []
     for i, st in enumerate(stmts):
-        if isinstance(st, ast.If):
-            body, orelse = list(st.body), list(st.orelse)
+        if isinstance(st, ast.Continue):
+            return out + cont
+        if isinstance(st, ast.Break):
+            return out + brk
+        if isinstance(st, ast.If) and (_has_jump(st.body) or _has_jump(st.orelse)):
             rest = stmts[i + 1 :]
-            if body and isinstance(body[-1], ast.Continue):
-                new = ast.If(test=st.test, body=_desugar_continue(body[:-1]) or [ast.Pass()], orelse=_desugar_continue(orelse + rest))
-                ast.copy_location(new, st)
-                new._parent = getattr(st, "_parent", None)
-                out.append(new)
-                return out
-            if orelse and isinstance(orelse[-1], ast.Continue):
-                new = ast.If(test=st.test, body=_desugar_continue(body + rest), orelse=_desugar_continue(orelse[:-1]) or [ast.Pass()])
-                ast.copy_location(new, st)
-                new._parent = getattr(st, "_parent", None)
-                out.append(new)
-                return out
+            new = ast.If(test=st.test, body=_unroll_body(list(st.body) + rest, cont, brk) or [ast.Pass()], orelse=_unroll_body(list(st.orelse) + rest, cont, brk))
+            ast.copy_location(new, st)
+            new._parent = getattr(st, "_parent", None)
+            return out + [new]
+        out.append(st)
+    return out + cont
+
+
+def _has_continue(stmts):
+    for st in stmts:
+        if isinstance(st, ast.Continue):
+            return True
+        if isinstance(st, ast.If) and (_has_continue(st.body) or _has_continue(st.orelse)):
+            return True
+    return False
+
+
+def _desugar_continue(stmts):
+    """Inside a loop body:  [if c: A else: B] + rest  ==  [if c: A + rest else: B + rest], where a `continue`
+    cuts everything after it; applied to every `if` that (transitively) contains a continue."""
+    out = []
+    for i, st in enumerate(stmts):
+        if isinstance(st, ast.Continue):
+            return out
+        if isinstance(st, ast.If) and (_has_continue(st.body) or _has_continue(st.orelse)):
+            rest = stmts[i + 1 :]
+            new = ast.If(test=st.test, body=_desugar_continue(list(st.body) + rest) or [ast.Pass()], orelse=_desugar_continue(list(st.orelse) + rest))
+            ast.copy_location(new, st)
+            new._parent = getattr(st, "_parent", None)
+            out.append(new)
+            return out
         out.append(st)
     return out
 
